@@ -1123,12 +1123,23 @@ class EventBus:
                 handler_tasks[handler_id] = (task, handler)
 
             # Wait for all handlers to complete
-            for handler_id, (task, handler) in handler_tasks.items():
-                try:
-                    await task
-                except Exception:
-                    # Error already logged and recorded in execute_handler
-                    pass
+            try:
+                for handler_id, (task, handler) in handler_tasks.items():
+                    try:
+                        await task
+                    except Exception:
+                        # Error already logged and recorded in execute_handler
+                        pass
+            except asyncio.CancelledError:
+                # Processing of this event is being interrupted (e.g. the handler awaiting it timed out). The cancellation only
+                # reached the one handler task we were awaiting: stop its siblings too, otherwise they keep running and
+                # overwrite their results after the event has already been settled and completed
+                unfinished_tasks = [task for task, _handler in handler_tasks.values() if not task.done()]
+                for task in unfinished_tasks:
+                    task.cancel()
+                if unfinished_tasks:
+                    await asyncio.gather(*unfinished_tasks, return_exceptions=True)
+                raise
         else:
             # otherwise, execute handlers serially, wait until each one completes before moving on to the next
             for handler_id, handler in applicable_handlers.items():
